@@ -110,6 +110,16 @@ CHECKS = {
         "(<=6 sites, cylinders, ancillas, all bond directions/orientations) vs a dense fermionic reference after every gate; DoublePepsTensor.tensordot vs fuse_layers; sums of PEPS.",
    note=TB + "apply_gate_onsite/to_tensor swap schedules and the corner contractions are compared with the dense specification, not proved (partial).",
    technique="Lean 4 proof (matrix exponential closed forms) + dense Jordan-Wigner oracles", design="§5 C11"),
+ "C12": dict(
+   cat="translation_validation",
+   text="The PEPS environment algorithms are NOT modelled. Lean provides a verified SPECIFICATION (15 theorems): expectation values of graded operator products with the sign from "
+        "C05's inversion theorem (reordering law, linearity, identity), Gram-form metrics are Hermitian PSD and stay so under conjugation, add_charge_swaps_ bookkeeping laws. "
+        "The real EnvBoundaryMPS / EnvCTM / EnvBP / EnvNTU / evolution_step_ are validated against it: exact environments on finite lattices up to 3x3 from random shallow "
+        "circuits in fermionic and spin symmetries; measure_1site/nn/2site/nsite/2x2/line vs an independent NumPy Jordan-Wigner reference (1e-8, observed 2e-15); NTU metrics "
+        "Hermitian and PSD at round-off; untruncated evolution step exact with truncation error at round-off; signs and charge-swap bookkeeping vs the Lean driver.",
+   note=TB + "This is differential validation of the real environments against a verified specification, not a proof about the environment code (DESIGN §5 C12, §8). "
+        "Known finding: EnvBoundaryMPS.measure_nn with fermionically odd operators.",
+   technique="Lean 4 verified specification + translation validation of real environments against it", design="§5 C12"),
  "C13": dict(
    cat="proof",
    text="34 Lean theorems about an exact model of truncation_mask (two-stage block/global selection, strict >, per-sector dictionaries): limits respected, "
@@ -128,6 +138,15 @@ CHECKS = {
    note=TB + "Which all-zero blocks (hence possibly all-zero sectors) a contraction creates depends on the policy; results are compared on the union of legs (DESIGN §7). "
         "svd/qr factors are gauge dependent: only reconstructions and singular values are compared.",
    technique="Lean 4 model independent of the knobs + lockstep differential execution under all configurations", design="§5 C14"),
+ "C15": dict(
+   cat="proof",
+   text="Lean heap/alias model (objects, addresses, effects alloc/share/setItem/setBlock). 16 theorems for all heaps and finite histories: frame (operations returning new "
+        "objects leave every pre-existing variable unchanged, also when results alias operands), footprint of item assignment (exactly the sharers) and of set_block (receiver "
+        "only), allocator invariant, copies are isolated and stay unaffected by ANY history of operations/in-place edits not targeting them. Tie: snapshot monitor on the real code "
+        "— bytes of data/struct/slices/hfs/mfs/trans of EVERY pre-existing object before/after EVERY call in random Tensor programs (all ops incl. ncon, fuse, svd, masks), MPS/MPO "
+        "methods and algorithms, PEPS/DoublePepsTensor/environment calls; in-place API on copy/clone/shallow_copy families with the observer sets compared with the heap model.",
+   note=TB + "Which real operation has which effect is read off the source and OBSERVED (np.shares_memory) on each run, not proved; CPython/NumPy aliasing is outside the model.",
+   technique="Lean 4 proof on a heap model + byte-level snapshot monitor", design="§5 C15"),
  "C16": dict(
    cat="proof",
    text="15 Lean theorems about an LRU model of functools.lru_cache: for every pure f, capacity (0,1,n), coherent initial cache and EVERY finite history of "
@@ -146,6 +165,16 @@ CHECKS = {
         "split/combine vs the model on dictionary skeletons.",
    note=TB + "numpy.save / pickle / HDF5 formats are exercised, not modelled.",
    technique="Lean 4 proof of codecs + round-trip oracles on real objects", design="§5 C17"),
+ "C18": dict(
+   cat="proof",
+   text="30 Lean theorems (exact arithmetic, generic Krylov model shared with the Float driver): Arnoldi/Lanczos relations by construction, tridiagonality/three-term form, happy "
+        "breakdown gives an invariant subspace, Ritz pairs exact on invariant subspaces, exp(t F) V = V exp(t T) (powers, polynomials and the exponential over R/C), time bookkeeping "
+        "of expmv for an ARBITRARY controller (accepted steps sum to |t|, sign, t=0 and zero-vector branches), lin_solver returns the residual of the returned vector, every "
+        "produced vector stays in the Krylov span (sector). Tie: real expmv/eigs/lin_solver on random symmetric block operators (Hermitian or not, real/imaginary/complex t over "
+        "decades incl. forced sub-stepping, all ncv/flags, zero and near-invariant start vectors) vs scipy expm / numpy eigh, eig, solve and vs the Float instantiation of the model.",
+   note=TB + "The tolerance claim of the adaptive controller is a heuristic error estimate and is tested, not proved; floating-point loss of orthogonality is outside exact-arithmetic "
+        "theorems. Four genuine numerical defects are recorded as known findings.",
+   technique="Lean 4 proof of Krylov algebra/bookkeeping + dense oracles + Float model correspondence", design="§5 C18"),
  "C19": dict(
    cat="proof",
    text="Group laws (associativity, commutativity, identity, inverse by signature flip, canonical range, grouping law) are Lean theorems "
